@@ -253,4 +253,4 @@ func runP(s PScript) (nontrivial bool, k string, f *vt.Finding) {
 	return len(kinds) >= 2, k, nil
 }
 
-func TestProcessorInOut(t *testing.T) { vt.Run(t, cP, vt.N(1000, 30000), genP, runP) }
+func TestProcessorInOut(t *testing.T) { vt.Run(t, cP, vt.N(1500, 30000), genP, runP) }
